@@ -364,6 +364,50 @@ def rewrite_body(S, b0, b1, opts, log):
                 continue
         i += 1
 
+    # ------------- R11: elide the rest of a block from the statement that starts with an anchor ---
+    for occ, anchor, repl in opts.get("elide", []):
+        atoks = [t.text for t in lex(anchor)]
+        hits = [k for k in range(b0, b1 - len(atoks)) if [t.text for t in toks[k:k + len(atoks)]] == atoks]
+        if occ < 1 or occ > len(hits):
+            raise ExtractError(f"lost anchor: elide_rest #{occ} `{anchor}` ({len(hits)} occurrences)")
+        k = hits[occ - 1]
+        if toks[k - 1].text not in (";", "{", "}"):
+            raise ExtractError(f"elide_rest `{anchor}`: anchor does not start a statement")
+        # closing brace of the enclosing block
+        d, z = 0, k
+        while z <= b1:
+            u = toks[z]
+            if u.kind == "punct" and u.text in OPEN:
+                d += 1
+            elif u.kind == "punct" and u.text in CLOSE:
+                if d == 0:
+                    break
+                d -= 1
+            z += 1
+        ln = line_of(src, toks[k].start)
+        n_lines = line_of(src, toks[z].start) - ln
+        ed.add(toks[k].start, toks[z].start, repl + "\n", "R11",
+               f"{S.rel}:{ln} {n_lines} lines from `{anchor}` to the end of the block replaced by `{repl}` (over-approximation: no claim about this path)")
+    # ------------- R11: one statement replaced by a call to a contracted stub ------------------
+    for anchor, repl in opts.get("replace_stmt", []):
+        atoks = [t.text for t in lex(anchor)]
+        hits = [k for k in range(b0, b1 - len(atoks)) if [t.text for t in toks[k:k + len(atoks)]] == atoks]
+        if len(hits) != 1:
+            raise ExtractError(f"lost anchor: replace_stmt `{anchor}` matches {len(hits)} times")
+        k = hits[0]
+        d, z = 0, k
+        while z <= b1:
+            u = toks[z]
+            if u.kind == "punct" and u.text in OPEN:
+                d += 1
+            elif u.kind == "punct" and u.text in CLOSE:
+                d -= 1
+            elif u.kind == "punct" and u.text == ";" and d == 0:
+                break
+            z += 1
+        ln = line_of(src, toks[k].start)
+        orig = " ".join(text_of(src, toks, k, z + 1).split())
+        ed.add(toks[k].start, toks[z].end, repl, "R11", f"{S.rel}:{ln} statement `{orig[:160]}` replaced by `{repl}` (assumed contract)")
     # ------------- R4: contract on a closure (header replaced, body kept verbatim in braces) ---
     for anchor, newhead in opts.get("closures", []):
         atoks = [t.text for t in lex(anchor)]
@@ -645,6 +689,9 @@ def emit_type(root, d):
             depth -= 1
         if depth == 1 and t.text == "#" and toks[i + 1].text == "[":
             c = match_close(toks, i + 1)
+            if toks[i + 2].text == "cfg":
+                i = c + 1      # conditional compilation of a field / variant is kept
+                continue
             pieces.append(src[pos:t.start])
             pos = toks[c].end
             i = c + 1
@@ -746,6 +793,16 @@ def parse_template(path):
                 cur["rename"] = cmd[7:].strip()
             elif cmd.startswith("f64 "):
                 cur["f64"].append(cmd[4:].strip())
+            elif cmd.startswith("elide_rest "):
+                m = re.match(r"elide_rest\s+(\d+)\s+<<(.*?)>>\s*==>\s*<<(.*)>>\s*$", cmd)
+                if not m:
+                    raise ExtractError(f"{path}:{i+1}: bad elide_rest")
+                cur.setdefault("elide", []).append((int(m.group(1)), m.group(2), m.group(3)))
+            elif cmd.startswith("replace_stmt "):
+                m = re.match(r"replace_stmt\s+<<(.*?)>>\s*==>\s*<<(.*)>>\s*$", cmd)
+                if not m:
+                    raise ExtractError(f"{path}:{i+1}: bad replace_stmt")
+                cur.setdefault("replace_stmt", []).append((m.group(1), m.group(2)))
             elif cmd.startswith("closure_spec "):
                 m = re.match(r"closure_spec\s+<<(.*?)>>\s*==>\s*<<(.*)>>\s*$", cmd)
                 if not m:
